@@ -102,7 +102,7 @@ def run_shard(tier, seed, idx, n, res, tmp):
     try:
         # (1) token-level mutants of valid renderings
         prev_text = 'namespace q\nstruct S\n    f String\n'
-        for ci in range(idx, b['models'], n):
+        for ci in common.case_range(idx, b['models'], n, res):
             cs = common.case_seed(PROPERTY, seed, ci)
             rnd = random.Random(cs)
             m = gm.generate(cs, gm.make_profile(p_cfg_ts_bytes_attr=0.3))
@@ -144,6 +144,9 @@ def run_shard(tier, seed, idx, n, res, tmp):
                     k += 1
                     if k % n != idx:
                         continue
+                    if (k // n) % 2048 == 0 and common.out_of_time(0.8):
+                        res.count('enum_cut_by_soft_deadline')
+                        break
                     text = 'namespace x\n' + mu.join_tokens(seq)
                     files = [('x.stone', text)]
                     klass, payload = boundary.compile_outcome(files, fast=True)
